@@ -57,6 +57,9 @@ type Conn struct {
 	// (a peer that reads slowly or not at all); the default is an unbounded buffer.
 	Backpressure int
 	consumed     int
+	// DiscardOutput makes the connection accept and forget what the server writes (a client nobody looks at; keeps a
+	// long run with hundreds of idle residents from storing every notification they are sent).
+	DiscardOutput bool
 	// WriteLimit, when > 0, makes the connection behave like a peer that vanished after that many bytes in total had
 	// been written to it: the Write that crosses the limit is cut short (the bytes before the limit are recorded,
 	// the short count and EPIPE are returned) and every later Write fails.
@@ -171,6 +174,11 @@ func (c *Conn) Write(p []byte) (int, error) {
 		time.Sleep(200 * time.Microsecond)
 		c.mu.Lock()
 	}
+	if c.DiscardOutput {
+		c.outBytes += len(p)
+		c.consumed = c.outBytes
+		return len(p), nil
+	}
 	if c.WriteLimit > 0 && c.outBytes+len(p) > c.WriteLimit {
 		n := c.WriteLimit - c.outBytes
 		if n < 0 {
@@ -198,6 +206,13 @@ func (c *Conn) Write(p []byte) (int, error) {
 func (c *Conn) SetBackpressure(n int) {
 	c.mu.Lock()
 	c.Backpressure = n
+	c.mu.Unlock()
+}
+
+// SetDiscardOutput switches DiscardOutput on a live connection.
+func (c *Conn) SetDiscardOutput(on bool) {
+	c.mu.Lock()
+	c.DiscardOutput = on
 	c.mu.Unlock()
 }
 
